@@ -1,5 +1,10 @@
 """C08 - database discovery is sound and database verification notices violating rows."""
-from .. import ief, triage
+import ast
+
+from .. import ief, triage, taint
+from ..flow import GuardMap
+from ..model import AnalysisError, norm
+from .common import names_in, dep_closure
 
 ROOTS = ['discover_db_table', 'verify_db_table']
 
@@ -9,3 +14,161 @@ def check(run):
     roots = [p.fn(r) for r in ROOTS]
     ief.run_ief(run, 'C08', roots, triage=triage.IEF)
     run.floor('C08-IEF', run.units['ief_functions_checked'], 150)
+    sh = p.cls('SQLDatabaseHandler')
+    sqlq(run, p, sh)
+    emptyjoin(run, p, sh)
+    total(run, p, sh)
+    exc(run, p, sh)
+    rexflags(run, p)
+    from .c07 import agg
+    agg(run, p)
+    run.rules['C07-AGG'] = run.rules['C07-AGG'] + ' (shared with C07: the SQL side of discovery and verification)'
+    run.trust('the table name given to the API is trusted SQL (stated policy); sqlite3/DB-API execute() runs exactly the text it is given')
+
+
+def sqlq(run, p, sh):
+    run.rule('C08-SQLQ', 'on the SQLite / dialect-independent path every slot of every SQL template is filled by the right class of text: '
+                         'identifier slots by the identifier-quoting helper (or the trusted table name, a constant, or a fragment built '
+                         'from those); slots inside single quotes by text whose quotes were doubled; and each quoting helper doubles its '
+                         'own delimiter')
+    t = taint.SQLTaint(p, sh)
+    nsites = 0
+    for name, f in sorted(sh.methods.items()):
+        gm = GuardMap(f.node)
+        for call, issues in t.analyse(f):
+            nsites += 1
+            real = []
+            for i in issues:
+                if taint.non_sqlite_arm(gm, i.node) or taint.non_sqlite_arm(gm, call):
+                    run.note('C08-SQLQ', 'non-SQLite arm, not exercised here: %s' % i.msg, f, i.node)
+                    continue
+                # the template may have been built in a non-sqlite arm and only executed later
+                real.append(i)
+            real = [i for i in real if not _built_in_non_sqlite_arm(t, f, gm, i)]
+            key = '%s::%s::%s' % (f.rel, f.short, norm(call)[:40])
+            if not real:
+                run.ob('C08-SQLQ', key, True, 'every slot of the SQL reaching %s is quoted for its context' % norm(call)[:40], fn=f, node=call)
+            for i in real:
+                run.ob('C08-SQLQ', key + '::' + norm(i.node)[:30], False, '%s: %s' % (f.short, i.msg), fn=f, node=i.node)
+    for hname in ('quoted',):
+        h = sh.methods.get(hname)
+        if h is None:
+            raise AnalysisError('SQLDatabaseHandler.%s vanished' % hname)
+        gm = GuardMap(h.node)
+        for n, tmpl, ok in taint.delimiter_helper(h):
+            if ok is None:
+                raise AnalysisError('quoting helper template %r not interpretable' % tmpl)
+            run.ob('C08-SQLQ', '%s::%s::%s' % (h.rel, h.short, tmpl), ok,
+                   'quoting helper wraps its argument as %s and %s the closing delimiter inside it'
+                   % (tmpl, 'doubles' if ok else 'does NOT double'), fn=h, node=n)
+    run.floor('C08-SQLQ', nsites, 15)
+
+
+def _built_in_non_sqlite_arm(t, f, gm, issue):
+    n = issue.node
+    # find the statement that contains the offending expression
+    for s in ast.walk(f.node):
+        if isinstance(s, ast.stmt) and any(x is n for x in ast.walk(s)):
+            if taint.non_sqlite_arm(gm, s):
+                return True
+    return False
+
+
+def emptyjoin(run, p, sh):
+    run.rule('C08-EMPTYJOIN', 'a separator.join(X) placed inside parentheses of an SQL template, where X is built from a parameter that '
+                              'may be empty, is dominated by a test that X is non-empty (or has a constant fallback)')
+    n = 0
+    for name, f in sorted(sh.methods.items()):
+        gm = GuardMap(f.node)
+        for x in p.own_nodes(f):
+            if isinstance(x, ast.BinOp) and isinstance(x.op, ast.Mod) and isinstance(x.left, ast.Constant) and isinstance(x.left.value, str):
+                args = x.right.elts if isinstance(x.right, ast.Tuple) else [x.right]
+                import re
+                slots = [m.start() for m in re.finditer(r'%s', x.left.value)]
+                for pos, a in zip(slots, args):
+                    inparen = pos > 0 and x.left.value[pos - 1] == '(' and x.left.value[pos + 2:pos + 3] == ')'
+                    j = a
+                    fallback = False
+                    if isinstance(j, ast.BoolOp) and isinstance(j.op, ast.Or):
+                        fallback = any(isinstance(v, ast.Constant) and v.value for v in j.values[1:])
+                        j = j.values[0]
+                    if inparen and isinstance(j, ast.Call) and isinstance(j.func, ast.Attribute) and j.func.attr == 'join':
+                        n += 1
+                        src = names_in(j.args[0]) if j.args else set()
+                        clo = dep_closure(f.node, src)
+                        params = clo & set(f.params)
+                        ch = gm.chain(x) or ()
+                        tested = any(g.kind == 'if' and (names_in(g.test) & (src | params)) and 'is None' not in ast.unparse(g.test)
+                                     for g in ch)
+                        run.ob('C08-EMPTYJOIN', '%s::%s::%s' % (f.rel, f.short, norm(j)[:40]), tested or fallback,
+                               '(%s) in %s: %s' % (norm(j)[:40], f.short, 'guarded against an empty list' if (tested or fallback)
+                                                   else 'an empty %s gives the invalid SQL `()`' % sorted(params or src)), fn=f, node=j)
+    run.floor('C08-EMPTYJOIN', n, 1)
+
+
+def total(run, p, sh):
+    run.rule('C08-TOTAL', 'a lookup in a closed dict literal with a key derived from a query result is a .get or is dominated by a membership test')
+    n = 0
+    for name, f in sorted(sh.methods.items()):
+        dicts = {t.id for s in p.own_nodes(f) if isinstance(s, ast.Assign) and isinstance(s.value, ast.Dict)
+                 for t in s.targets if isinstance(t, ast.Name)}
+        if not dicts:
+            continue
+        gm = GuardMap(f.node)
+        for x in p.own_nodes(f):
+            if isinstance(x, ast.Subscript) and isinstance(x.value, ast.Name) and x.value.id in dicts and isinstance(x.ctx, ast.Load):
+                n += 1
+                clo = dep_closure(f.node, names_in(x.slice))
+                from_query = any(c.startswith('self.execute') for c in clo)
+                ch = gm.chain(x) or ()
+                tested = any(g.kind == 'if' and g.pol and x.value.id in names_in(g.test) and ' in ' in ast.unparse(g.test) for g in ch)
+                run.ob('C08-TOTAL', '%s::%s::%s' % (f.rel, f.short, norm(x)[:40]), tested or not from_query,
+                       '%s: key comes from a query result and the table is %s' % (norm(x)[:40], 'tested first' if tested else 'not total (KeyError for any other type name)'),
+                       fn=f, node=x)
+    run.floor('C08-TOTAL', n, 1)
+
+
+def exc(run, p, sh):
+    run.rule('C08-EXC', 'parsing of stored text (strptime / datetime construction on a query result) sits inside a try that catches ValueError')
+    n = 0
+    for name, f in sorted(sh.methods.items()):
+        gm = GuardMap(f.node)
+        for x in p.own_nodes(f):
+            if isinstance(x, ast.Call) and norm(x.func).endswith(('strptime', 'fromisoformat')):
+                n += 1
+                ch = gm.chain(x) or ()
+                ok = False
+                for g in ch:
+                    if g.kind == 'try':
+                        ok = ok or any(h.type is None or 'ValueError' in ast.unparse(h.type) or 'Exception' in ast.unparse(h.type)
+                                       for h in g.test.handlers)
+                run.ob('C08-EXC', '%s::%s::%s' % (f.rel, f.short, norm(x)[:40]), ok,
+                       '%s in %s %s' % (norm(x)[:50], f.short, 'is guarded' if ok else 'raises ValueError for any other stored date text'), fn=f, node=x)
+    run.floor('C08-EXC', n, 2)
+
+
+def rexflags(run, p):
+    run.rule('C08-REXFLAGS', 'the REGEXP callback registered with SQLite matches with the flags rexpy inferred the expressions under')
+    f = p.fn('tdda.constraints.db.drivers.regex_matcher')
+    want = p.const('tdda.rexpy.rexpy', 'RE_FLAGS')
+    calls = [x for x in ast.walk(f.node) if isinstance(x, ast.Call) and norm(x.func) in ('re.match', 're.compile', 're.fullmatch', 're.search')]
+    ok = False
+    got = None
+    for c in calls:
+        fl = c.args[2] if len(c.args) > 2 else next((k.value for k in c.keywords if k.arg == 'flags'), None)
+        if norm(c.func) == 're.compile':
+            fl = c.args[1] if len(c.args) > 1 else fl
+        if fl is not None:
+            try:
+                got = p.fold(f.mod, fl)
+            except AnalysisError:
+                got = None
+            ok = got == want
+    run.ob('C08-REXFLAGS', '%s::%s' % (f.rel, f.short), ok, 'regex_matcher matches with flags %r (rexpy: %r)' % (got, want), fn=f)
+    # and it is the function registered
+    reg = [x for g in p.funcs.values() if g.mod.name == 'tdda.constraints.db.drivers' for x in p.own_nodes(g)
+           if isinstance(x, ast.Call) and isinstance(x.func, ast.Attribute) and x.func.attr == 'create_function']
+    ok2 = bool(reg) and all(len(x.args) == 3 and norm(x.args[2]) == 'regex_matcher' and isinstance(x.args[0], ast.Constant)
+                            and x.args[0].value.lower() == 'regexp' for x in reg)
+    run.ob('C08-REXFLAGS', 'registration', ok2, 'create_function registers regex_matcher as regexp: %s' % [norm(x) for x in reg], fn=f, nontrivial=False)
+    run.floor('C08-REXFLAGS', 2, 2)
